@@ -122,12 +122,24 @@ fn valid_wal(data: &[u8]) -> Vec<u8> {
 }
 
 pub fn seed_names(tier: Tier) -> Vec<&'static str> {
-    tier.pick(vec!["mini"], vec!["mini", "empty", "tiny", "small", "rich", "optimized", "wide"])
+    // VERIF_C07_SEEDS=all adds the three ~11 KiB seeds (about 45 more minutes on a busy machine)
+    if std::env::var("VERIF_C07_SEEDS").as_deref() == Ok("all") {
+        return vec!["mini", "empty", "tiny", "small", "rich", "optimized", "wide"];
+    }
+    tier.pick(vec!["mini"], vec!["mini", "empty", "tiny", "small"])
+}
+
+pub fn make_all_seeds() -> Vec<Seed> {
+    make_named_seeds(vec!["mini", "empty", "tiny", "small", "rich", "optimized", "wide"])
 }
 
 pub fn make_seeds(tier: Tier) -> Vec<Seed> {
+    make_named_seeds(seed_names(tier))
+}
+
+fn make_named_seeds(names: Vec<&'static str>) -> Vec<Seed> {
     let scratch = Scratch::new("c07seed");
-    seed_names(tier)
+    names
         .into_iter()
         .map(|name| {
             scratch.clear();
@@ -723,7 +735,7 @@ fn replay(file: &str) -> i32 {
     let idx = r["case"].as_u64().unwrap_or(0) as usize;
     let tier = if r["tier"].as_str() == Some("thorough") { Tier::Thorough } else { Tier::Quick };
     crate::child::set_tier(tier);
-    let seeds = make_seeds(Tier::Thorough);
+    let seeds = make_all_seeds();
     let Some(seed) = seeds.iter().find(|s| s.name == name) else { engine::machinery_failure(&format!("unknown seed {name}")) };
     let scratch = Scratch::new("c07p");
     let dir = scratch.dir.to_string_lossy().to_string();
